@@ -135,22 +135,33 @@ func serveGuards(c *core.Ctx) {
 	// isBidi variable: defined from (h.spec.StreamType & StreamTypeBidi) == StreamTypeBidi
 	bidiVal, _ := constIntOf(p, "StreamTypeBidi")
 	var bidiVar types.Object
+	// the test itself, kept in a local or written in place in the condition
+	isBidiExpr := func(e ast.Expr) bool {
+		l, op, r, ok := astx.CompareOp(e)
+		if !ok || op != token.EQL {
+			return false
+		}
+		if v, ok := astx.ConstInt(info, r); !ok || v != bidiVal {
+			return false
+		}
+		if b, ok := astx.Unparen(l).(*ast.BinaryExpr); ok && b.Op == token.AND {
+			if v, ok := astx.ConstInt(info, b.Y); ok && v == bidiVal && astx.IsFieldNamed(info, b.X, "StreamType") {
+				return true
+			}
+		}
+		return false
+	}
+	bidiInPlace := false
 	ast.Inspect(fd.Body, func(n ast.Node) bool {
+		if e, ok := n.(ast.Expr); ok && isBidiExpr(e) {
+			bidiInPlace = true
+		}
 		as, ok := n.(*ast.AssignStmt)
 		if !ok || len(as.Lhs) != 1 || len(as.Rhs) != 1 {
 			return true
 		}
-		l, op, r, ok := astx.CompareOp(as.Rhs[0])
-		if !ok || op != token.EQL {
-			return true
-		}
-		if v, ok := astx.ConstInt(info, r); !ok || v != bidiVal {
-			return true
-		}
-		if b, ok := astx.Unparen(l).(*ast.BinaryExpr); ok && b.Op == token.AND {
-			if v, ok := astx.ConstInt(info, b.Y); ok && v == bidiVal && astx.IsFieldNamed(info, b.X, "StreamType") {
-				bidiVar = astx.ObjOf(info, as.Lhs[0])
-			}
+		if isBidiExpr(as.Rhs[0]) {
+			bidiVar = astx.ObjOf(info, as.Lhs[0])
 		}
 		return true
 	})
@@ -221,7 +232,7 @@ func serveGuards(c *core.Ctx) {
 			if k, low := protoLow(e, f.Pol); k {
 				pi.low, pi.notLow = pi.low || low, pi.notLow || !low
 			}
-			if o := astx.ObjOf(info, e); o != nil && o == bidiVar {
+			if o := astx.ObjOf(info, e); (o != nil && o == bidiVar) || isBidiExpr(e) {
 				pi.bidi, pi.notBidi = pi.bidi || f.Pol, pi.notBidi || !f.Pol
 			}
 			if o := astx.ObjOf(info, e); o != nil && o == connOK {
@@ -268,7 +279,7 @@ func serveGuards(c *core.Ctx) {
 	for _, g := range []string{"method == POST", "not (bidi && HTTP/1.x)", "protocol handler selected (!= nil)", "NewConn returned ok", "timeout error is nil"} {
 		c.Check(missing[g] == 0, "implementation/guard/"+g, impl.Pos(), "%d of %d paths to the implementation call lack the guard `%s`", missing[g], nPaths, g)
 	}
-	c.Check(bidiVar != nil, "bidi-flag", fd.Pos(), "bidi flag is (spec.StreamType & StreamTypeBidi) == StreamTypeBidi")
+	c.Check(bidiVar != nil || bidiInPlace, "bidi-flag", fd.Pos(), "bidi flag is (spec.StreamType & StreamTypeBidi) == StreamTypeBidi")
 
 	// (2) every exit: implementation called at most once; rejecting exits write the right status
 	isWriteHeader := func(call *ast.CallExpr) (int64, bool) {
